@@ -14,13 +14,18 @@ LEVEL_TEXT = ("Theorems (Mathlib calculus, HasDerivAt) about functions/kernels r
               "force is clamped; exact write lists of _qderiv_actuator_passive and _qderiv_tendon_damping (J^T diag(B) J on the sparse pattern). On the real code (sampled) the matrix written by "
               "deriv_smooth_vel, M - h*qDeriv, is compared ENTRY BY ENTRY with float64 finite differences of MuJoCo's passive+actuator forces, with MuJoCo's analytic qDeriv and with finite differences of "
               "mjw's own forces, for both implicit integrators, on models that combine every smooth-force component (joint/tendon damping incl. polynomial, joint and tendon actuators, ellipsoid-model "
-              "and inertia-box fluid bodies in ONE model, four media with wind); one step is compared with a dense solve using the finite-difference Jacobian and with mj_step.")
+              "and inertia-box fluid bodies in ONE model, four media with wind); one step is compared with a dense solve using the finite-difference Jacobian and with mj_step. Per-world BATCHED Model "
+              "fields (nworld 2..5; dof/tendon damping and dampingpoly, actuator gain/bias/dyn prm, force/ctrl/act ranges, opt.timestep, with batch sizes 1 / nworld / nworld-1 that DIFFER between "
+              "sibling fields in all six patterns): every world's assembled M - h*qDeriv vs the unbatched Model of an MjModel holding that world's values, vs MuJoCo's analytic qDeriv and finite "
+              "differences for that MjModel, vs finite differences of the batched forces; one batched step per world vs mj_step.")
 LEVEL_NOTE = ("C27_partial: DC-motor branches, the RNE (Coriolis) derivative of the full implicit integrator and fluid derivatives are sampled only (the fluid kernels and the host-side choice of which "
               "fluid kernel is launched are not in Gen). The clamped-control defect found by the witness was repaired (fix: commit). Observed, not recorded here (reported): the full implicit integrator "
               "mirrors the lower triangle of the nonsymmetric ellipsoid-fluid derivative into the upper triangle (counted as 'observed: ...' in hits). Trusted: Lean kernel + Mathlib, translator.")
 ASSUMPTIONS = ["matrix check: float64 MuJoCo finite differences with step 1e-6, tolerance 1e-5*|M|max + 1e-3*|h*J|max + 1e-7 (observed noise < 0.1 of it); float32 finite differences of mjw forces with step 1e-3, "
                "tolerance 1e-5*|M|max + 1e-2*|h*J|max + 2e-5, skipped when MuJoCo's forces have a kink inside the +-1e-3 window",
                "finite-difference references are used only where MuJoCo's analytic qDeriv agrees with MuJoCo's own finite differences (the analytic comparison always runs)",
+               "batched family: per-row values are the model's value times a positive factor in [1/e, e] (timestep [0.5, 2]), rounded to float32 on both sides; same tolerances; the comparison with the "
+               "unbatched Model uses the float64 tolerance (observed: identical to < 0.1 of it)",
                "step checks: tolerance 3e-2 relative (dense solve with the float32 finite-difference Jacobian), 2e-3 relative vs mj_step"]
 
 XML = """
@@ -219,6 +224,186 @@ def _mirror_finding(acc, got, want, replay):
            "forward.implicit (_map_m2d of the M-structure qDeriv)", "implicit-fluid-derivative-symmetrised", **replay)
 
 
+# third family: PER-WORLD BATCHED Model fields.  Every Model field that the velocity-derivative kernels read per world is an independently batched array
+# (leading dimension 1, nworld or anything in between, addressed worldid % size).  One batched Model with batch sizes that DIFFER between the fields, nworld >= 2,
+# per-world states; world w's M - h*qDeriv must be what the unbatched code / MuJoCo give for an MjModel that holds world w's values.
+XML_BATCH = """
+<mujoco>
+  <option timestep="0.005" integrator="{integ}"><flag contact="disable"/></option>
+  <worldbody>
+    <body pos="0 0 1"><joint name="h1" type="hinge" axis="0 1 0" damping="0.4 0.15 0.05"/><geom type="capsule" size=".04 .2"/><site name="s0" pos=".1 0 .1"/>
+      <body pos=".4 0 0"><joint name="h2" type="hinge" axis="1 0 0.3" damping="0.2 0.1 0.02"/><geom type="capsule" size=".03 .15"/><site name="s1" pos=".1 0 .1"/>
+        <body pos=".3 0 0"><joint name="h3" type="hinge" axis="0 0 1" damping="0.1"/><geom type="capsule" size=".03 .1"/><site name="s2" pos=".1 .05 .1"/></body></body></body>
+    <body pos="1 0 1"><joint name="sl" type="slide" axis="0 0 1" damping="0.5 0.2 0.1"/><geom size=".05"/></body>
+  </worldbody>
+  <tendon>
+    <fixed name="t1" damping="0.3 0.2 0.1"><joint joint="h1" coef="1"/><joint joint="h2" coef="-0.5"/><joint joint="h3" coef="0.7"/></fixed>
+    <spatial name="t2" damping="0.4 0.25 0.1"><site site="s0"/><site site="s1"/><site site="s2"/></spatial>
+  </tendon>
+  <actuator>
+    <general joint="h1" gainprm="0.5 0 1.5" ctrllimited="true" ctrlrange="-1 1"/>
+    <position joint="h2" kp="5" kv="0.7"/>
+    <velocity joint="sl" kv="2" forcelimited="true" forcerange="-1.5 1.5"/>
+    <general tendon="t1" dyntype="filter" dynprm="0.05" gainprm="1 0 0.4" biastype="affine" biasprm="0 0 -0.3"/>
+    <general joint="h3" dyntype="filterexact" dynprm="0.03" actearly="true" gainprm="0.5 0 0.6"/>
+    <general tendon="t2" dyntype="integrator" actlimited="true" actrange="-0.4 0.4" actearly="true" gainprm="0.3 0 0.5"/>
+  </actuator>
+</mujoco>
+"""
+# sibling fields read side by side in one kernel; per case the two batch sizes of every pair follow BATCH_PATTERNS in rotation ('1', 'n' = nworld,
+# 'k' = nworld - 1 (1 when nworld = 2): a size that does not divide nworld), shifted by the pair index so that one case mixes different patterns
+BATCH_PAIRS = [("tendon_damping", "tendon_dampingpoly"), ("dof_damping", "dof_dampingpoly"), ("actuator_gainprm", "actuator_biasprm"),
+               ("actuator_dynprm", "actuator_actrange"), ("actuator_forcerange", "actuator_ctrlrange")]
+BATCH_PATTERNS = [("1", "n"), ("n", "1"), ("k", "n"), ("n", "k"), ("n", "n"), ("1", "k")]
+BATCH_NWORLD = [3, 2, 4, 3, 5, 2]
+BATCH_TIMESTEP = ["n", "1", "k"]
+
+
+def _assemble(outn, eid, mask):
+  return np.where(mask, outn.astype(np.float64)[np.clip(eid, 0, None)], 0.0)
+
+
+def _check_batched(acc, mujoco, wp, mjw, derivative, rng, state, c):
+  """one batched case: a Model whose per-world fields have batch sizes that differ from each other, nworld >= 2, per-world states.  References per world w, all
+  for an MjModel holding world w's values: MuJoCo's analytic qDeriv, MuJoCo float64 finite differences, the UNBATCHED mjw Model (put_model of that MjModel), and
+  float32 finite differences of the batched mjw forces themselves."""
+  import copy
+  integ = "implicit" if c % 2 else "implicitfast"
+  nw = BATCH_NWORLD[c % len(BATCH_NWORLD)]
+  sz = {"1": 1, "n": nw, "k": nw - 1 if nw > 2 else 1}
+  xml = XML_BATCH.format(integ=integ)
+  mjm = mujoco.MjModel.from_xml_string(xml)
+  nv = mjm.nv
+  sizes = {}
+  for p, (a, b) in enumerate(BATCH_PAIRS):
+    pa, pb = BATCH_PATTERNS[(c + p) % len(BATCH_PATTERNS)]
+    sizes[a], sizes[b] = sz[pa], sz[pb]
+  ts_size = sz[BATCH_TIMESTEP[c % len(BATCH_TIMESTEP)]]
+  # per-row values: the model's value times a positive factor in [1/e, e] per entry (nonzero stays nonzero, zero stays zero: nothing that put_model derives
+  # from these fields changes); row 0 of a size-1 field is the model's own value
+  rows = {}
+  for name, s in sizes.items():
+    base = np.asarray(getattr(mjm, name), dtype=np.float64)
+    if s == 1:
+      rows[name] = base[None].copy()
+    elif name.endswith("range"):
+      rows[name] = base[None] * np.exp(rng.uniform(-1, 1, size=(s,) + base.shape[:1] + (1,)))     # both ends of a range scaled together
+    else:
+      rows[name] = base[None] * np.exp(rng.uniform(-1, 1, size=(s,) + base.shape))
+  ts_rows = np.array([mjm.opt.timestep]) if ts_size == 1 else mjm.opt.timestep * np.exp(rng.uniform(-0.7, 0.7, size=ts_size))
+  # float32 is what the device holds: the per-world MjModels get exactly those values
+  rows = {k: v.astype(np.float32).astype(np.float64) for k, v in rows.items()}
+  ts_rows = ts_rows.astype(np.float32).astype(np.float64)
+
+  # ---- the batched Model (public route: put_model(batch_sizes=...) + per-row values) and per-world states
+  m = mjw.put_model(mjm, batch_sizes={k: s for k, s in sizes.items() if s > 1})
+  for name, s in sizes.items():
+    arr = getattr(m, name)
+    if arr.shape[0] != s:
+      acc.find(f"put_model(batch_sizes={{{name!r}: {s}}}) produced leading dimension {arr.shape[0]}", "io.put_model", "batched-size", xml=xml)
+      return
+    if s > 1:
+      arr.assign(rows[name].astype(np.float32))
+  m.opt.timestep = wp.array(ts_rows.astype(np.float32), dtype=float)
+  worlds = []
+  for w in range(nw):
+    mw = copy.copy(mjm)
+    for name, s in sizes.items():
+      getattr(mw, name)[:] = rows[name][w % s]
+    mw.opt.timestep = float(ts_rows[w % ts_size])
+    worlds.append((mw, state(mw)))
+  d = mjw.put_data(mjm, worlds[0][1], nworld=nw)
+  for fld in ("qpos", "qvel", "ctrl", "act"):
+    getattr(d, fld).assign(np.array([getattr(md, fld) for _, md in worlds], dtype=np.float32))
+  mjw.forward(m, d)
+  out = wp.zeros((nw, m.nC), dtype=float)
+  derivative.deriv_smooth_vel(m, d, out)
+  outn = out.numpy()
+  eid = m.M_elemid.numpy() if hasattr(m.M_elemid, "numpy") else np.asarray(m.M_elemid)
+  mask = np.tril(eid >= 0)
+  sym = (lambda J: 0.5 * (J + J.T)) if integ == "implicitfast" else (lambda J: J)
+  # float32 central differences of the BATCHED model's own forces, all worlds at once
+  V0 = np.array([md.qvel for _, md in worlds])
+  eps = 1e-3
+  Jw = np.zeros((nw, nv, nv))
+  for k in range(nv):
+    fs = []
+    for s_ in (1.0, -1.0):
+      V = V0.copy(); V[:, k] += s_ * eps
+      d.qvel.assign(V.astype(np.float32)); mjw.forward(m, d)
+      fs.append((d.qfrc_passive.numpy() + d.qfrc_actuator.numpy()).astype(np.float64))
+    Jw[:, :, k] = (fs[0] - fs[1]) / (2 * eps)
+  d.qvel.assign(V0.astype(np.float32)); mjw.forward(m, d)
+  # one step of the batched model (implicit integrators: solve with the matrix above)
+  d2 = mjw.put_data(mjm, worlds[0][1], nworld=nw)
+  for fld in ("qpos", "qvel", "ctrl", "act"):
+    getattr(d2, fld).assign(np.array([getattr(md, fld) for _, md in worlds], dtype=np.float32))
+  mjw.step(m, d2)
+  qv2 = d2.qvel.numpy().astype(np.float64)
+
+  desc = ", ".join(f"{k}:{s}" for k, s in sizes.items()) + f", opt.timestep:{ts_size}"
+  for w, (mw, md) in enumerate(worlds):
+    h = mw.opt.timestep
+    replay = dict(xml=xml, nworld=nw, world=w, batch_sizes=dict(sizes, **{"opt.timestep": ts_size}), rows={k: v.tolist() for k, v in rows.items() if v.shape[0] > 1},
+                  timestep_rows=ts_rows.tolist(), qpos=md.qpos.tolist(), qvel=md.qvel.tolist(), ctrl=md.ctrl.tolist(), act=md.act.tolist())
+    A = _assemble(outn[w], eid, mask)
+    M = _dense_mass(mujoco, mw, md)
+    Jpa, Jb = _mj_fd(mujoco, mw, md, 1e-6)
+    Jpa3, _ = _mj_fd(mujoco, mw, md, 1e-3)
+    ref = mujoco.MjData(mw)
+    ref.qpos[:], ref.qvel[:], ref.ctrl[:], ref.act[:] = md.qpos, md.qvel, md.ctrl, md.act
+    mujoco.mj_step(mw, ref)
+    Q = _mj_qderiv(mw, ref) - (Jb if integ == "implicit" else 0.0)
+    # the unbatched Model of world w's MjModel, same state
+    m1 = mjw.put_model(mw)
+    d1 = mjw.put_data(mw, md, nworld=1)
+    mjw.forward(m1, d1)
+    o1 = wp.zeros((1, m1.nC), dtype=float)
+    derivative.deriv_smooth_vel(m1, d1, o1)
+    A1 = _assemble(o1.numpy()[0], eid, mask)
+    sJ, sM = np.abs(h * Jpa).max(), np.abs(M).max()
+    tol64 = 1e-5 * sM + 1e-3 * sJ + 1e-7
+    tol32 = 1e-5 * sM + 1e-2 * sJ + 2e-5
+    smooth_window = np.abs(h * (Jpa3 - Jpa)).max() <= 0.1 * tol32
+    consistent = np.abs(h * (sym(Q) - sym(Jpa)) * mask).max() <= tol64
+    acc.hit("batched: " + ("fd-window-smooth" if smooth_window else "fd-window-kink(mjw finite differences skipped)"))
+    acc.hit("batched: " + ("references-consistent" if consistent else "references-inconsistent (finite-difference comparisons skipped)"))
+    for name, R, tol, on in (("unbatched-model", A1, tol64, True), ("mujoco-analytic", (M - h * sym(Q)) * mask, tol64, True), ("mujoco-fd", (M - h * sym(Jpa)) * mask, tol64, consistent),
+                             ("finite-difference", (M - h * sym(Jw[w])) * mask, tol32, smooth_window and consistent)):
+      if not on:
+        continue
+      E = np.abs(A - R)
+      i, j = np.unravel_index(int(E.argmax()), E.shape)
+      e = E[i, j]
+      acc.hit(f"batched margin {name}: err/tol " + ("<= 0.1" if e <= 0.1 * tol else "<= 0.5" if e <= 0.5 * tol else "<= 1" if e <= tol else "> 1"))
+      if not e <= tol:
+        acc.find(f"deriv_smooth_vel ({integ}) with per-world batched Model fields (nworld {nw}; batch sizes {desc}): world {w}'s M - h*qDeriv differs from the reference '{name}' for an "
+                 f"MjModel holding world {w}'s values by {e:.3g} > {tol:.3g}: entry [{i},{j}] {A[i, j]:.6g} vs {R[i, j]:.6g}; h*J scale {sJ:.3g}, M scale {sM:.3g}",
+                 "derivative.deriv_smooth_vel", "batched-matrix-vs-" + name, **replay)
+    if not np.allclose(qv2[w], ref.qvel, rtol=2e-3, atol=2e-3 * (1 + np.abs(ref.qvel).max())):
+      acc.find(f"{integ} step with per-world batched Model fields (nworld {nw}; batch sizes {desc}): world {w} differs from mj_step of an MjModel holding world {w}'s values "
+               f"(max |d qvel| {np.abs(qv2[w] - ref.qvel).max():.3g})", "derivative.deriv_smooth_vel", "batched-vs-mujoco", **replay)
+    # vacuity: is this world's derivative really a function of a row other than row 0?
+    if w >= 1:
+      for a, b in BATCH_PAIRS:
+        ra, rb = w % sizes[a], w % sizes[b]
+        if ra != rb:
+          acc.hit(f"batched: world>=1 reads different rows of {a} / {b}")
+      acc.hit("batched: world>=1 reads timestep row " + ("0" if w % ts_size == 0 else ">=1"))
+    acc.hit("batched: tendon velocity nonzero" if np.abs(md.ten_velocity).min() > 1e-3 else "batched: some tendon velocity ~ 0")
+    acc.hit("batched: velocity actuator force " + ("clamped" if abs(md.actuator_force[2]) >= mw.actuator_forcerange[2, 1] - 1e-9 else "inside range"))
+    acc.hit("batched: ctrl " + ("saturated" if abs(md.ctrl[0]) > mw.actuator_ctrlrange[0, 1] else "inside range"))
+    acc.hit("batched: integrator act " + ("at/over actrange" if abs(md.act[-1]) >= mw.actuator_actrange[5, 1] else "inside actrange"))
+  acc.evals += 1
+  acc.distinct.add(("batched", c, integ, nw, tuple(sorted(sizes.items())), ts_size))
+  acc.hit("batched:" + integ)
+  acc.hit(f"batched: nworld {nw}")
+  for (a, b) in BATCH_PAIRS:
+    acc.hit(f"batched: sizes {a}/{b} " + ("differ" if sizes[a] != sizes[b] else "equal"))
+  acc.hit(f"batched: opt.timestep size {'1' if ts_size == 1 else 'nworld' if ts_size == nw else 'other'}")
+  acc.sample({"batched": desc, "nworld": nw, "integrator": integ}, limit=6)
+
+
 def _run(ctx, ncases, rec):
   import mujoco
   import warp as wp
@@ -279,6 +464,9 @@ def _run(ctx, ncases, rec):
       acc.hit("mix:polynomial-damping" if poly else "mix:linear-damping")
       acc.hit("mix:fluid-force-active" if np.abs(mjd.qfrc_fluid).max() > 1e-6 else "mix:fluid-force-zero")
       acc.sample({"fluidshape": pat, "integrator": integ, "density": rho, "viscosity": mu, "n_box_bodies": nbox, "n_ellipsoid_bodies": nell}, limit=5)
+    # batched models: per-world Model fields with batch sizes that differ from each other (all six size patterns of every sibling pair in the quick tier)
+    for c in range(len(BATCH_PATTERNS) if ncases <= 8 else ncases // 2):
+      _check_batched(acc, mujoco, wp, mjw, derivative, rng, state, c)
 
   if rec:
     kc, _ = intercept(KERNELS, scenario, rng, max_tids=16, per_kernel=3)
@@ -294,7 +482,12 @@ RULE = ("two families, even cases implicitfast / odd cases full implicit. (A) ar
         "incl. a body with one ellipsoid and one plain geom; all-box and all-ellipsoid controls in the thorough tier), joint + tendon damping (polynomial every third case) and actuators on joints and tendon. Per case: "
         "(1) the matrix written by deriv_smooth_vel (M - h*qDeriv on M's sparsity pattern) entry by entry vs M - h*J with J from float64 central differences of MuJoCo's passive+actuator forces, vs MuJoCo's analytic qDeriv "
         "(left by mj_step; RNE part removed for the full implicit integrator), and vs float32 central differences of mjw's own forces (symmetrised for implicitfast); (2) one step vs a dense solve of (M - h J) dv = h f with "
-        "J the central finite-difference velocity Jacobian of the real forces (incl. -d qfrc_bias/d qvel for implicit); (3) one step vs mujoco.mj_step; distinct = (family, case, pattern, integrator, medium)")
+        "J the central finite-difference velocity Jacobian of the real forces (incl. -d qfrc_bias/d qvel for implicit); (3) one step vs mujoco.mj_step; distinct = (family, case, pattern, integrator, medium). "
+        "(C) batched models: 3 hinges + slider, fixed and spatial tendon, joint and tendon damping polynomial, six actuators (affine velocity gain with ctrl limit, position kv, force-limited velocity, tendon filter with "
+        "affine bias, filterexact with actearly, act-limited integrator with actearly on the spatial tendon); nworld 3,2,4,3,5,2 in rotation, per-world states; put_model(batch_sizes=...) with per-row values; the batch "
+        "sizes of each sibling pair (tendon_damping/tendon_dampingpoly, dof_damping/dof_dampingpoly, gainprm/biasprm, dynprm/actrange, forcerange/ctrlrange) run through (1,n) (n,1) (n-1,n) (n,n-1) (n,n) (1,n-1), "
+        "shifted per pair, opt.timestep through n / 1 / n-1 (all patterns in every quick run). Per world w: the row of deriv_smooth_vel's output vs (a) the unbatched Model put_model(MjModel with world w's values), "
+        "(b) M - h*qDeriv of MuJoCo for that MjModel (analytic and float64 finite differences), (c) float32 finite differences of the batched forces; one batched step vs mj_step per world")
 
 
 def correspondence(ctx):
